@@ -20,7 +20,7 @@ use crate::report::{Acc, Check, Tier};
 use crate::util;
 use crate::world::{self, Artifacts, Verdict};
 
-pub const VARIATIONS: [&str; 21] = [
+pub const VARIATIONS: [&str; 27] = [
     "none",
     "materials:path",
     "materials:digest-byte",
@@ -42,6 +42,13 @@ pub const VARIATIONS: [&str; 21] = [
     "products:missing-first-entry",
     "products:empty",
     "products:digest-first-byte",
+    // digests of another length: a prefix of the true digest, the true digest plus a byte, no bytes
+    "materials:digest-truncated",
+    "materials:digest-extended",
+    "materials:digest-empty",
+    "products:digest-truncated",
+    "products:digest-extended",
+    "products:digest-empty",
 ];
 
 fn base_arts() -> Artifacts {
@@ -89,6 +96,22 @@ fn vary(arts: &mut Artifacts, what: &str) {
         "missing-entry" => {
             arts.remove(&world::vpath("d/b"));
         }
+        "digest-truncated" | "digest-extended" | "digest-empty" => {
+            // the entry "a" of either base map; its digest number differs (1 in materials, 3 in products)
+            let cur: Vec<u8> = arts.get(&world::vpath("a")).and_then(|d| d.get(&HashAlgorithm::Sha256)).map(|h| h.value().to_vec()).unwrap_or_default();
+            let bytes = match what {
+                "digest-truncated" => cur[..cur.len() - 1].to_vec(),
+                "digest-extended" => {
+                    let mut b = cur.clone();
+                    b.push(0);
+                    b
+                }
+                _ => vec![],
+            };
+            let mut d = in_toto::models::TargetDescription::new();
+            d.insert(HashAlgorithm::Sha256, HashValue::new(bytes));
+            arts.insert(world::vpath("a"), d);
+        }
         _ => {}
     }
 }
@@ -131,6 +154,10 @@ fn populate(dir: &Path, st: &State, texts: &[Vec<String>], extra_texts: &[String
     // the single link of the neighbouring step `o`
     let o = keys::get("ed5");
     world::write(dir, &world::link_file("o", o), &world::block_text(&world::sign_link(world::link("o", world::arts(&[]), world::arts(&[("x", 1)])), &[o])));
+    // the two agreeing links of the neighbouring multi-party step `m`
+    for k in [keys::get("ed5"), keys::get("ec2")] {
+        world::write(dir, &world::link_file("m", k), &world::block_text(&world::sign_link(world::link("m", world::arts(&[]), world::arts(&[("y", 1)])), &[k])));
+    }
     match st.extra {
         1 => world::write(dir, &world::link_file("s", keys::get("ec1")), &extra_texts[0]),
         2 => world::write(dir, &world::link_file("s", f[3]), &extra_texts[1]),
@@ -138,7 +165,7 @@ fn populate(dir: &Path, st: &State, texts: &[Vec<String>], extra_texts: &[String
     }
 }
 
-pub const SHAPES: [&str; 4] = ["alone", "after-a-single-party-step", "before-a-single-party-step", "after-a-threshold-0-step"];
+pub const SHAPES: [&str; 6] = ["alone", "after-a-single-party-step", "before-a-single-party-step", "after-a-threshold-0-step", "after-an-agreeing-multi-party-step", "before-an-agreeing-multi-party-step"];
 
 /// The multi-party step `s` alone, or next to a single-party step `o` (whose one link is
 /// always present and valid).
@@ -150,10 +177,13 @@ fn layout(shape: &str, t: u32) -> Metablock {
         "after-a-single-party-step" => vec![o(1), s],
         "before-a-single-party-step" => vec![s, o(1)],
         "after-a-threshold-0-step" => vec![o(0), s],
+        "after-an-agreeing-multi-party-step" => vec![world::step("m", 2, &[keys::get("ed5"), keys::get("ec2")]), s],
+        "before-an-agreeing-multi-party-step" => vec![s, world::step("m", 2, &[keys::get("ed5"), keys::get("ec2")])],
         _ => vec![s],
     };
     let mut table: Vec<&Key> = f.to_vec();
     table.push(keys::get("ed5"));
+    table.push(keys::get("ec2"));
     world::sign_layout(world::layout(steps, vec![], &table, world::far_future()), &[keys::get("ed6")])
 }
 
@@ -226,9 +256,11 @@ pub fn run(tier: Tier) -> i32 {
         order.push(start.clone());
         q.push_back(start);
         let mut transitions = 0u64;
+        // quick tier: the digest-length variations and the two-multi-party-step shapes with k = 2 only
+        let nvar = if k == 2 || (tier.thorough() && k == 3) { VARIATIONS.len() } else { 21 };
         while let Some(s) = q.pop_front() {
             for i in 0..k {
-                for v in 0..VARIATIONS.len() {
+                for v in 0..nvar {
                     if s.vars[i] == v {
                         continue;
                     }
@@ -263,6 +295,7 @@ pub fn run(tier: Tier) -> i32 {
             .iter()
             .flat_map(|t| SHAPES.iter().map(move |sh| (*t, *sh)))
             .filter(|(t, sh)| k == 2 || *sh == "alone" || *t == 2)
+            .filter(|(_, sh)| k == 2 || (tier.thorough() && k == 3) || !sh.contains("multi-party"))
             .map(|(t, sh)| (t, sh, layout(sh, t)))
             .collect();
         let accs = util::par_fold(
@@ -321,7 +354,7 @@ pub fn run(tier: Tier) -> i32 {
         acc.merge(Acc::merge_all(accs.into_iter().map(|(a, _)| a).collect()));
     }
     c.acc = acc;
-    c.rule = "state = vector of per-link variations (21 kinds: none; in materials or products: other path, last / first digest byte, other algorithm, second algorithm added, extra entry sorting last / first, missing last / first entry, empty map) for k authorised valid links, optionally plus a dissenting link by a key outside the key table or a tampered one; transition = change one link's variation; every state runs in_toto_verify for thresholds 2..min(k,3), with the step alone and next to a single-party step (before it, after it, after a threshold-0 step) under every permutation of the reference-link choice (site C); non-trivial = vectors that are not all equal".into();
+    c.rule = "state = vector of per-link variations (27 kinds: none; in materials or products: other path, last / first digest byte, digest truncated by a byte / extended by a byte / of no bytes, other algorithm, second algorithm added, extra entry sorting last / first, missing last / first entry, empty map) for k authorised valid links, optionally plus a dissenting link by a key outside the key table or a tampered one; transition = change one link's variation; every state runs in_toto_verify for thresholds 2..min(k,3), with the step alone, next to a single-party step (before it, after it, after a threshold-0 step) and next to a second multi-party step whose links agree (before it, after it) under every permutation of the reference-link choice (site C); non-trivial = vectors that are not all equal".into();
     c.bound_completed = format!("complete variation vectors for {} (BFS reaches every vector)", bounds.join(", "));
     c.assume("all k links are validly signed by authorised keys of the key table; no rules (isolates C03)");
     c.finish()
